@@ -231,6 +231,25 @@ pub fn gen(out: &mut Out, thorough: bool) {
             l(format!("mapped nav {}", cps(&format!("[0,{},{{\"w\":{}}}]", d, d))), out);
         }
     }
+    // wide objects of scalars with ONE small container value planted at every position (an offset
+    // computed from the entry count instead of the fragment volumes goes wrong behind it), alone and
+    // nested: every keyed mapped lookup of every key
+    for &nk in (if thorough { &[9usize, 13, 14, 16, 33, 40][..] } else { &[13usize, 16, 40][..] }) {
+        for pos in 0..nk {
+            for (pi, plant) in ["[1]", "[[]]", "{\"a\":1}", "[1,2]"].iter().enumerate() {
+                if !thorough && nk == 40 && pi != pos % 4 { continue; }
+                let mut d = String::from("{");
+                for i in 0..nk {
+                    if i > 0 { d.push(','); }
+                    d.push_str(&format!("\"k{}\":{}", i, if i == pos { plant.to_string() } else if i % 5 == 4 { "[]".to_string() } else if i % 5 == 2 { "\"s\"".to_string() } else { i.to_string() }));
+                }
+                d.push('}');
+                l(format!("mapped nav {}", cps(&d)), out);
+                if pos % 6 == 0 { l(format!("mapped nav {}", cps(&format!("[{{\"w\":{}}},{}]", d, d))), out); }
+                out.count("wide_objects_one_container_value");
+            }
+        }
+    }
     let n = if thorough { 150000 } else { 3000 };
     for _ in 0..n {
         let doc = { let mut g = crate::parse::DocGen { rng: &mut out.rng, max_depth: 5 }; g.doc() };
